@@ -225,6 +225,23 @@ def run_check(mod, tier, seed, replay=None):
         have = classes.get(cls, 0) + counters.get(cls, 0)
         if have < need:
             floor_msgs.append("class '%s': %d < floor %d" % (cls, have, need))
+    # --- crash replays bypassed rapidcheck's shrinking: minimise the first few by delta debugging
+    try:
+        from . import shrink
+        rbin = plan.get("replay_bin") or plan["builds"][0]
+        prefix = [build.binpath(*rbin), "--prop", pid] + plan.get("replay_args", []) + ["--replay"]
+        menv = dict(os.environ); menv.update(san_env()); menv.update(plan.get("env") or {})
+        done = 0
+        for i, v in enumerate(violations):
+            if done >= 2:
+                break
+            rp = v[0]
+            if "-crash-" in os.path.basename(rp) and rp.endswith(".json") and os.path.exists(rp):
+                newp = shrink.minimise(rp, prefix, menv, budget=plan.get("crash_shrink_budget", 60))
+                violations[i] = (newp,) + tuple(v[1:])
+                done += 1
+    except Exception as ex:  # minimisation is best effort
+        errors.append("crash minimisation failed: %r" % (ex,))
     # --- known findings
     known = load_known()
     real = []
